@@ -61,13 +61,14 @@ static void *worker(void *a) {
 
 int main(int argc, char **argv) {
     const char *mnt = NULL, *utmp_from = NULL;
-    int T = 4, forks = 60, child_ms = 8000;
+    int T = 4, forks = 60, child_ms = 8000, first_delay_ms = 0;
     for (int i = 1; i < argc; i++) {
         if (!strcmp(argv[i], "--mount")) mnt = argv[++i];
         else if (!strcmp(argv[i], "--utmp-from")) utmp_from = argv[++i];
         else if (!strcmp(argv[i], "--threads")) T = atoi(argv[++i]);
         else if (!strcmp(argv[i], "--forks")) forks = atoi(argv[++i]);
         else if (!strcmp(argv[i], "--child-ms")) child_ms = atoi(argv[++i]);
+        else if (!strcmp(argv[i], "--first-delay-ms")) first_delay_ms = atoi(argv[++i]);
     }
     if (mnt) {
         char src[4096], *c;
@@ -96,6 +97,11 @@ int main(int argc, char **argv) {
     pthread_t th[64];
     if (T > 64) T = 64;
     for (long t = 0; t < T; t++) pthread_create(&th[t], NULL, worker, NULL);
+    if (first_delay_ms) {
+        /* let the first fork land somewhere inside the threads' very first calls */
+        struct timespec fd_ = {first_delay_ms / 1000, (first_delay_ms % 1000) * 1000000L};
+        nanosleep(&fd_, NULL);
+    }
     int completed = 0, blocked = 0, died = 0;
     char last[700] = "";
     for (int f = 0; f < forks; f++) {
